@@ -56,6 +56,7 @@ type c01Case struct {
 	Meta         [][2]string   `json:"meta,omitempty"`
 	Path         string        `json:"path"` // put | put-md5 | post | copy | api
 	Overwrite    bool          `json:"overwrite,omitempty"`
+	PrevByCopy   bool          `json:"prevByCopy,omitempty"` // with Overwrite: the replaced object was itself created by a server-side copy
 	CopySelf     bool          `json:"copySelf,omitempty"` // path copy: the destination is the source key itself
 	Frag         s3x.Frag      `json:"frag,omitempty"`
 }
@@ -149,10 +150,22 @@ func c01Check(cs c01Case) (ds []disc) {
 				prev = append(prev, kv[0], "stale value of the replaced object")
 			}
 		}
-		r := put(st, "bk0", key, []byte("previous content of the key"), prev...)
+		prevKey := key
+		if cs.PrevByCopy {
+			// the replaced object is the destination of an earlier copy (whose source still exists)
+			prevKey = "c01-source-of-the-previous-object"
+			cleanup = append(cleanup, prevKey)
+		}
+		r := put(st, "bk0", prevKey, []byte("previous content of the key"), prev...)
 		if r.Status != 200 {
 			fail("pre-put", "cannot store the previous object: %s", r)
 			return
+		}
+		if cs.PrevByCopy {
+			if r := s3x.Do(st.Handler, &s3x.Req{Method: "PUT", Path: "/bk0/" + key, Header: s3x.H("X-Amz-Copy-Source", "/bk0/"+prevKey)}); r.Status != 200 {
+				fail("pre-put", "cannot store the previous object by copy: %s", r)
+				return
+			}
 		}
 	}
 	// a sibling key that the fs backends' metadata file naming flattens to the same name
@@ -740,6 +753,8 @@ func c01Run(t *testing.T, c *evid.Collector) {
 					one(c01Case{Backend: k, IntegrityOff: ioff, Key: "plain", Body: bodySpec{}, Path: p}, "fixed")
 					one(c01Case{Backend: k, IntegrityOff: ioff, Key: "empty-metadata-values", Body: bodySpec{Lit: []byte("x")}, Path: p, Overwrite: true,
 						Meta: [][2]string{{"X-Amz-Meta-Note", ""}, {"X-Amz-Meta-Kept", "k"}, {"Content-Encoding", ""}}}, "fixed")
+					one(c01Case{Backend: k, IntegrityOff: ioff, Key: "dir/was a copy once", Body: bodySpec{Lit: []byte("a completely different upload, longer than the one it replaces")}, Path: p, Overwrite: true, PrevByCopy: true,
+						Meta: [][2]string{{"X-Amz-Meta-Kept", "k"}}}, "fixed")
 					one(c01Case{Backend: k, IntegrityOff: ioff, Key: "latin1-metadata", Body: bodySpec{Lit: []byte("x")}, Path: p, Meta: [][2]string{{"X-Amz-Meta-Name", `caf\xe9`}, {"Content-Disposition", `attachment; filename=\xe4.txt`}}}, "fixed")
 					one(c01Case{Backend: k, IntegrityOff: ioff, Key: "dir/sub dir/ünï+%/obj?#.txt", Body: bodySpec{Lit: []byte("hello\x00\xff world")}, Path: p,
 						Meta: [][2]string{{"X-Amz-Meta-A", "1"}, {"Content-Type", "text/x"}, {"Content-Encoding", "gzip"}, {"Content-Disposition", "inline"}}, Overwrite: true}, "fixed")
@@ -765,6 +780,7 @@ func c01Run(t *testing.T, c *evid.Collector) {
 		cs.Meta = c01GenMeta(rt)
 		cs.Path = rapid.SampledFrom([]string{"put", "put", "put-md5", "post", "copy", "api"}).Draw(rt, "path")
 		cs.Overwrite = rapid.Bool().Draw(rt, "overwrite")
+		cs.PrevByCopy = cs.Overwrite && rapid.IntRange(0, 3).Draw(rt, "prevbycopy") == 0
 		cs.Frag = genFrag(rt, len(cs.Body.bytes()))
 		if cs.Path == "copy" {
 			cs.CopySelf = rapid.IntRange(0, 3).Draw(rt, "copyself") == 0
